@@ -518,6 +518,10 @@ impl Value {
                     None
                 }
             }
+            (&Value::Fixed(n, ref bytes), _) if bytes.len() != n => Some(format!(
+                "The value's size ({n}) is different than the length of its bytes ({})",
+                bytes.len()
+            )),
             (&Value::Fixed(n, _), &Schema::Fixed(FixedSchema { size, .. })) => {
                 if n != size {
                     Some(format!(
